@@ -20,4 +20,5 @@ func registerStreams(m map[string]Stream) {
 	m["c13"] = c13Stream{}
 	m["c18"] = c18Stream{}
 	m["tdrace"] = tdRaceStream{}
+	m["tdstore"] = tdStoreStream{}
 }
